@@ -283,11 +283,19 @@ class Cond:
             if short in ("map_or", "is_some_and") and b and ((short == "map_or" and len(args) == 3 and args[1][0] == "const" and args[1][1] in (0, False)) or (short == "is_some_and" and len(args) == 2)):
                 clo = _unref(args[-1])
                 optp = _unref(args[0])
+                while optp[0] == "call" and (callee_name(optp) or "").split("::")[-1] in ("as_ref", "as_mut", "as_deref") and optp[3]:
+                    optp = _unref(optp[3][0])
                 cl = prog.by_norm.get(clo[2]) if clo[0] == "agg" and clo[1] == "closure" else None
                 if cl is not None and optp[0] == "place":
                     ebc = ExprBuilder(prog, cl)
                     rets = [ebc._def_expr(d_, 0, (0,)) for d_ in cl.defs(0) if d_[0] in ("assign", "call")]
                     params = [vn for vn, l_, pj in cl.var_places if not pj and 2 <= l_ <= cl.arg_count]
+                    if len(rets) == 1 and rets[0][0] == "place" and len(params) == 1 and re.match(r"^%s(\.\*)*(\.\w+)+$" % re.escape(params[0]), rets[0][1]):
+                        # `|m| m.flag`: the flag of the payload
+                        fld = rets[0][1][len(params[0]):].replace(".*", "")
+                        out_ = self._mk(("val", optp[1]), (True, frozenset(["Some"]))) + self._mk(("val", "%s@Some.0%s" % (optp[1], fld)), BOOL_TRUE)
+                        if out_:
+                            return out_
                     if len(rets) == 1 and rets[0][0] == "call" and len(params) == 1:
                         body = rets[0]
                         sub = "%s@Some.0" % optp[1]
